@@ -190,3 +190,16 @@ def normal_loop_exit(body, cfg, header, blocks, next_bb):
 
 def origins_text(labs, n=8):
     return ", ".join(P.labels_str(labs, n))
+
+
+def continue_only(cfg, start, region, header):
+    """(ok, blocks): every path from `start` goes back to the loop header without leaving the
+    iteration region; `blocks` are the blocks on the way (header excluded)."""
+    outside = (set(range(cfg.n)) - set(region)) | {header}
+    if start == header:
+        return True, set()
+    r = cfg.reach(start, avoid=outside)
+    reaches = any(header in cfg.succ[x] for x in r)
+    leaves = any((y not in region and y != header) for x in r for y in cfg.succ[x])
+    dead_end = any(not cfg.succ[x] for x in r)
+    return (reaches and not leaves and not dead_end), r
